@@ -425,7 +425,11 @@ func genSpec(t *rapid.T, w *world) regSpec {
 		r.HasTags = true
 		full := strings.ToUpper(r.Title + "XXXXX")
 		for n := 1; n <= 5; n++ {
-			if rapid.IntRange(0, 3).Draw(t, "emptyTag") != 0 {
+			switch rapid.IntRange(0, 5).Draw(t, "tagShape") {
+			case 0: // no tag for this width
+			case 1: // a given tag is used as given, whatever its length
+				r.Tags[n] = full[:rapid.IntRange(1, len(full)).Draw(t, "tagLen")]
+			default:
 				r.Tags[n] = full[:n]
 			}
 		}
